@@ -6,14 +6,18 @@
    or decides that the submission is complete - whatever else happens in between (refused
    promotions, failed sbatch calls, any number of processes); (finitely many rounds) an accepted
    trace contains at most |jobs| successful submissions.
+   (completion only when done) in a fault-free run of an acyclic configuration the completion flag is
+   set only when every configured job has a result (SystemComplete.v).
+   "A round leaves a job whose blockers all have outcomes unsubmitted only when the max-nodes limit is
+   reached" is a guard of the acceptor (System.round_maximal at the completion check): every impl
+   trace of every mode must satisfy it to be accepted, the batching function is proved to have it in
+   Props/C07.v (c07_round_maximal), and the completeness proof uses it.
    NOT PROVED in Coq: that a round which is started always reaches its completion check (the real
-   code terminates; the model is an acceptor and has no notion of a process being scheduled), and
-   "a round leaves an unblocked job unsubmitted only at the max-nodes limit" at system level (proved
-   for the batching function in Props/C07.v, whose result is shown to satisfy the acceptor's batch
-   guard in SystemBridge.v): decided on impl by the oracles of harness/syscheck.py over all explored
-   fault-free schedules.  Stated as partial in MANIFEST.json. *)
+   code terminates; the model is an acceptor and has no notion of a process being scheduled): decided
+   on impl by the oracles of harness/syscheck.py over all explored fault-free schedules.  Still stated
+   as partial in MANIFEST.json. *)
 From Coq Require Import List ZArith NArith Bool.
-From Jade Require Import Base System SystemMonitors SystemProofs SystemTheorems SystemProgress.
+From Jade Require Import Base System SystemMonitors SystemProofs SystemTheorems SystemProgress SystemFault SystemComplete.
 From Jade.Props Require Import SysExamples.
 Import ListNotations.
 Open Scope N_scope.
@@ -50,6 +54,26 @@ Theorem c05_rounds_bounded : forall sc tr s, run sc tr = Some s ->
   (length (filter sbatch_ok tr) <= length (sc_jobs sc))%nat.
 Proof. exact sbatch_bound. Qed.
 Print Assumptions c05_rounds_bounded.
+
+(* the completion flag is set only when every job has a result (fault-free run, acyclic configuration) *)
+Theorem c05_complete_only_when_all_done : forall sc tr1 p tr2 s,
+  acyclic sc -> nodes_ok sc ->
+  run sc (tr1 ++ EMarkComplete p :: tr2) = Some s ->
+  fault_free sc init (tr1 ++ EMarkComplete p :: tr2) = true ->
+  exists s1, run sc tr1 = Some s1 /\ forall j, In j (all_jobs sc) -> In j (row_names (processed s1)).
+Proof. exact complete_only_when_all_done. Qed.
+Print Assumptions c05_complete_only_when_all_done.
+
+(* a round that ends leaves no submittable job behind unless the node limit is reached or the submission
+   is canceled: this is what the acceptor demands of every completion check *)
+Theorem c05_round_maximal : forall sc s p b s', step sc s (ECheckComplete p b) = Some s' ->
+  exists r, holder s = Some r /\ round_maximal sc r = true.
+Proof.
+  intros sc s p b s' Hs. unfold step in Hs. cbv beta iota in Hs. destruct (in_round s p) as [r|] eqn:Er; [|discriminate].
+  apply in_round_some in Er. destruct Er as (Eh & _). exists r. split; [exact Eh|].
+  destruct (round_maximal sc r); [reflexivity|]. rewrite !andb_false_r in Hs. discriminate.
+Qed.
+Print Assumptions c05_round_maximal.
 
 (* non-vacuity of c05_progress: after batch 100 of the example ended, the state is quiescent and the
    next round (process 4) submits batch 2 *)
